@@ -240,6 +240,25 @@ NP_KERNELS = [
                        ('positive', 'Bool')],
             externals={'mh.msm.peq': ('ext_peq', ['L[L[Rat]]'], 'L[Rat]')})),
     ]),
+    ('msm/tests.py', 'MsmCkApi', None, [
+        # the public Chapman–Kolmogorov test for a list of integer lag times; the result dictionary {lag: …, 'md': …} is the pair
+        # (association list over the lag times, reference entry)
+        ('chapman_kolmogorov_test', dict(
+            ret='T[L[T[Int,T[L[T[Int,L[Rat]]],L[Int],Bool,Bool]]],T[L[T[Int,L[Rat]]],L[Int],L[Bool],L[Bool]]]', param_names=['trajs_nstates', 'trajs_states', 'lagtimes', 'tmax'], params=['Int', 'L[Int]', 'L[Int]', 'Int'],
+            objects={'trajs': {'attrs': {'nstates': 'Int', 'states': 'L[Int]'}}},
+            facts={'np.issubdtype(lagtimes.dtype, np.integer)': True, 'isinstance(tmax, int)': True},
+            locals={'ckeqs': 'L[T[Int,T[L[T[Int,L[Rat]]],L[Int],Bool,Bool]]]'},
+            rewrite_stmts={'ckeqs = {}': 'ckeqs = []',
+                           'ckeqs[lagtime] = _chapman_kolmogorov_test(trajs, lagtime, tmax)':
+                               'ckeqs = rt__pyAssocSet(ckeqs, lagtime, _chapman_kolmogorov_test(trajs, lagtime, tmax))',
+                           "ckeqs['md'] = _chapman_kolmogorov_test_md(trajs, tmin=lagtimes[0], tmax=tmax)":
+                               'ckeqs_md = _chapman_kolmogorov_test_md(trajs, tmin=lagtimes[0], tmax=tmax)',
+                           'return ckeqs': 'return (ckeqs, ckeqs_md)'},
+            xcalls={'_chapman_kolmogorov_test': ('MsmTests', '_chapman_kolmogorov_test'), '_chapman_kolmogorov_test_md': ('MsmTests', '_chapman_kolmogorov_test_md')},
+            externals={'decl__estimate': ('ext_estimate', ['Int'], 'T[L[L[Rat]],L[Int]]'),
+                       'decl__estimate_plain': ('ext_estimate_plain', ['Int'], 'T[L[L[Rat]],L[Int]]'),
+                       'decl__geomspace': ('ext_geomspace_rounded', ['Int', 'Int', 'Int'], 'L[Int]')})),
+    ]),
     ('statetraj.py', 'StateTrajEst', 'StateTraj', [
         ('estimate_markov_model', dict(params=['Int'], ret='T[L[L[Rat]],L[Int]]', param_names=['lagtime'],
                                        selfattrs=[('_trajs', 'L[L[Int]]'), ('_states', 'L[Int]')],
@@ -562,6 +581,13 @@ class NpFn(Fn):
     def __init__(self, node, sig, module_fns, src_file, ns='', cls=None):
         self.cls = cls
         self.orig_params = [a.arg for a in node.args.args if a.arg != 'self'] + [a.arg for a in node.args.kwonlyargs]
+        self.orig_defaults = {}
+        d0 = node.args.defaults
+        for a_, dv in zip(node.args.args[len(node.args.args) - len(d0):], d0):
+            self.orig_defaults[a_.arg] = dv
+        for a_, dv in zip(node.args.kwonlyargs, node.args.kw_defaults):
+            if dv is not None:
+                self.orig_defaults[a_.arg] = dv
         node = prepare(node, sig)
         self.lean_name = sig.get('lean_name')
         self.xcalls = sig.get('xcalls', {})
@@ -605,6 +631,8 @@ class NpFn(Fn):
         d = node.args.defaults
         for a, dv in zip(node.args.args[len(node.args.args) - len(d):], d):
             self.defaults[a.arg] = dv
+        for k_, dv in self.orig_defaults.items():
+            self.defaults.setdefault(k_, dv)
         for n in ast.walk(node):
             if isinstance(n, ast.Name) and n.id in ('x_', 'y_', 'r_'):
                 raise Unsupported('%s: variable name %s is reserved by the translator' % (node.name, n.id))
@@ -1293,6 +1321,18 @@ class NpFn(Fn):
                 c, t = eff('%s %s' % (en, ' '.join(cs)), rt)
                 return pre, c, t
             callee = None
+            if name == 'rt__pyAssocSet' and len(args) == 3:
+                d_, td = sub(args[0])
+                k_, tk = sub(args[1])
+                v_, tv = sub(args[2])
+                if not (isinstance(td, tuple) and td[0] == 'L' and td[1] == ('T', 'Int', tv)) or tk != 'Int':
+                    raise Unsupported('%s: association-list assignment of %s into %s' % (self.name, tv, td))
+                return pre, '(pyAssocSet %s %s %s)' % (d_, k_, v_), td
+            if name == 'np.atleast_1d' and len(args) == 1:
+                c, t = sub(args[0])
+                if not is_vec(t):
+                    raise Unsupported('%s: atleast_1d of %s' % (self.name, t))
+                return pre, c, t
             if name == 'superinit__' and len(args) == 1:
                 callee = REGISTRY.get(('StateTrajInit', 'init'))
                 if callee is None:
